@@ -47,6 +47,10 @@ REQUIRED_THEOREMS += ['patch_jump_tie', 'emit_loop_tie', 'patch_offset_at_tie']
 THEOREM_MODULES.append("Yarel.Props.FnsTie.CallReturn")
 REQUIRED_THEOREMS += ['call_effect', 'return_to_caller', 'call_return_roundtrip']
 
+# what the try / return / throw statement compilers emit, proved of their bodies as translated on every run (Props/FnsTie/Statements)
+THEOREM_MODULES.append("Yarel.Props.FnsTie.Statements")
+REQUIRED_THEOREMS += ["emit_return_skeleton", "return_statement_skeleton", "try_statement_skeleton"]
+
 
 def opnames():
     global OPNAMES
